@@ -897,6 +897,12 @@ def inner_text_edits(ctx: Ctx | None, fn: ast.AST) -> list[ast.Call]:
             if c.func.attr in ("lstrip", "rstrip") and not c.args:
                 continue
             out.append(c)
+        # a lenient transcoding drops (or replaces) the characters it cannot map: the same edit, spelled as a codec option
+        if isinstance(c, ast.Call) and isinstance(c.func, ast.Attribute) and c.func.attr in ("encode", "decode") \
+                and {x.id for x in ast.walk(c.func.value) if isinstance(x, ast.Name)} & derived:
+            errs = [a for a in c.args[1:2]] + [k.value for k in c.keywords if k.arg == "errors"]
+            if any(isinstance(e, ast.Constant) and e.value in ("ignore", "replace", "backslashreplace", "xmlcharrefreplace", "namereplace", "surrogateescape") for e in errs):
+                out.append(c)
     return out
 
 
